@@ -209,10 +209,21 @@ CHECKS["C17"] = dict(
          "function named `size` is emitted as `__size__`.",
     design="§4 C17")
 
+CHECKS["C13"] = dict(
+    engine="E2 mirsym (MIR -> z3)", technique="symbolic execution of rustc MIR of the project driver with the file system and pipeline stages as recorded uninterpreted calls; z3 entailment queries over path conditions and data-flow terms; native replay on real directories through transpile_dir",
+    text="Bounded symbolic model checking of the project driver kernels: on every path of transpile_dir a file is written only if the path "
+         "condition entails that mamba_to_python (called once with all sources) returned Ok; the i-th generated source goes to "
+         "out_dir.join(i-th relative path).with_extension(py), input and output paths being images of the same relative_files result; "
+         "mamba_to_python returns Ok only when the error sides of its three partitions are empty, builds one context from all parsed "
+         "files and runs every stage over all files through order-preserving adaptors only.",
+    note="RESTRICTED claim (driver kernels): that checking a file is independent of the order of the others and of unrelated files is the "
+         "whole checker and only exercised by the replay scenarios; I/O failures during the write loop, the glob crate and non-UTF-8 "
+         "paths are outside.",
+    design="§4 C13")
+
 NOT_APPLICABLE = {
     "C02": "needs the generator executed on symbolic programs (core::fmt/to_py recursion does not finish in CBMC even on concrete 3-node trees) and membership in Python's grammar as the assertion; no encodable kernel (DESIGN §6)",
     "C04": "oracle is Python's dynamic semantics over whole programs and the subject is the whole checker (HashSet/recursion out of reach of Kani; not loop-free for the MIR executor) (DESIGN §6)",
-    "C13": "filesystem, glob and process behaviour have no model in any available solver-based engine; the rest is whole-pipeline (DESIGN §6)",
 }
 
 PENDING = {}
